@@ -381,6 +381,48 @@ func c10acks(c *wk.Ctx, idx int, r *rand.Rand) {
 	}
 	e.quiesce(2 * time.Second)
 	checkOutgoing(c, idx, e, "ack-history", wallClock)
+	// a message delivered again (servers repeat what they believe unacknowledged — the first ack may have been
+	// lost): the second reception is a received content-related message like any other. The repeat is sent only
+	// after the first ack has arrived, so an ack for it is necessarily a new one.
+	if idx%2 == 0 {
+		id := e.srv.NextMsgID(3)
+		out := refserver.Out{MsgID: id, SeqNo: cn.NextSeq(true), Body: apiUpdateBody(r)}
+		waitAcks := func(n int) bool {
+			for w := 0; w < 1500; w++ {
+				e.mu.Lock()
+				got := e.ackCount[id]
+				e.mu.Unlock()
+				if got >= n {
+					return true
+				}
+				time.Sleep(10 * time.Millisecond)
+			}
+			return false
+		}
+		alone := r.Intn(2) == 0
+		send := func() {
+			if alone {
+				cn.SendEncrypted(out, e.salt(), "update", nil)
+				return
+			}
+			fresh := refserver.Out{MsgID: e.srv.NextMsgID(3), SeqNo: cn.NextSeq(true), Body: apiUpdateBody(r)}
+			cn.SendEncrypted(refserver.Out{MsgID: e.srv.NextMsgID(3), SeqNo: cn.NextSeq(false), Body: refserver.Container([]refserver.Out{out, fresh})}, e.salt(), "container", nil)
+		}
+		send()
+		if !waitAcks(1) {
+			c.Viol("C10", idx, "unacknowledged/ack-history", fmt.Sprintf("content-related server message %d was never named in a msgs_ack", id), nil)
+		} else {
+			for rep := 2; rep <= 3; rep++ {
+				send()
+				c.Count("c10.repeated_deliveries", 1)
+				if !waitAcks(rep) {
+					c.Viol("C10", idx, "unacknowledged/repeated-delivery", fmt.Sprintf("server message %d was delivered %d times (the repeats after its first acknowledgement had arrived) but named in msgs_ack only %d times: a reception was left unanswered", id, rep, rep-1), nil)
+					break
+				}
+			}
+		}
+		hist += "repeat "
+	}
 	c.Distinct("ackhist", hist)
 	if idx%5 == 0 {
 		c.Sample(map[string]interface{}{"scenario": "ack-history", "server_messages": hist})
